@@ -411,7 +411,7 @@ def F5(m, R):
         raise AnalysisError('anchor vanished: replace loop')
     tt = {}
     for name, rank in (('<0', -1), ('=0', 0), ('>0', 1)):
-        val = merge_valuations(order_valuation({count: rank, '0': 0}), lambda a: True if 'idx' in norm(a) or 'find' in norm(a) else None)
+        val = merge_valuations(order_valuation({count: rank, '0': 0}), lambda a: True if count not in names_in(a) else None)      # every conjunct that is not about count: a match is pending
         tt[name] = eval_guard(lp.test, val)
     R.check(tt == {'<0': True, '=0': False, '>0': True}, f, lp, 'the loop runs for a negative (all) or positive count, never for 0',
             'with a match pending the loop runs for count regions %s' % sorted(k for k, v in tt.items() if v), construct='replace count guard')
@@ -503,8 +503,9 @@ def F4(m, R):
     rets = [n for n in f.walk() if isinstance(n, ast.Return)]
     if cp is not None and not any(norm(r.value) == norm(cp.targets[0]) for r in rets):
         problems.append('the copy is not what is returned')
-    init = next((s for s in ast.walk(f.node) if isinstance(s, ast.Assign) and cp is not None and norm(s.targets[0]) == norm(cp.targets[0]) and s is not cp), None)
-    if init is None or norm(init.value) != '[]':
+    init = next((s for s in ast.walk(f.node) if isinstance(s, (ast.Assign, ast.AnnAssign)) and cp is not None and s is not cp and s.value is not None and
+                 norm(s.targets[0] if isinstance(s, ast.Assign) else s.target) == norm(cp.targets[0])), None)
+    if init is None or norm(init.value) not in ('[]', 'list()'):
         problems.append('result does not start as []')
     R.check(not problems, f, loop, 'returns a copy of the active list as of the last point <= idx', '; '.join(problems), construct=cons)
     # settings_at handled in D6.  find_settings arms:
@@ -615,31 +616,74 @@ def F4(m, R):
             okp = False
             msg = 'the pre-check is skipped unless `%s`: in that case a start lying between two points is never examined' % short(extra_conds[0])
         R.check(bool(okp), f, pre, 'if `start` is not itself a point, the settings active at `start` are examined and `start` reported', msg, construct=cons)
-    # start predicate all / end predicate not all, over the same membership test
+    # start predicate all / end predicate not all, over the same membership test: whatever is returned as first component was selected
+    # under "every given setting present" (or is the pre-checked `start`), whatever is returned as second component under "some missing"
     cons = 'find_settings predicates'
     problems = []
     und = []
-    seen_kinds = {'found_start': [], 'found_end': []}
-    for n in f.walk():
-        if isinstance(n, ast.Assign) and norm(n.targets[0]) in seen_kinds and not (isinstance(n.value, ast.Constant) and n.value.value is None):
-            g_ = next((p_ for p_ in _parents(n) if isinstance(p_, ast.If)), None)
-            if g_ is None:
-                und.append('unguarded %s' % short(n))
-                continue
-            ks = [quant_kind(c) for c in conjuncts(g_.test)]
-            ks = [k for k in ks if k is not None]
-            if not ks:
-                und.append('guard %s' % short(g_.test))
+    rets = [n for n in f.walk() if isinstance(n, ast.Return) and isinstance(n.value, ast.Tuple) and len(n.value.elts) == 2]
+    start_vars, end_vars = set(), set()
+    direct = {'start': [], 'end': []}          # (kind) for components that are selected at the return itself
+
+    def guard_kinds(node):
+        ks = []
+        for p_ in _parents(node):
+            if isinstance(p_, ast.If):
+                in_body = any(node is x for b_ in p_.body for x in ast.walk(b_))
+                for c in conjuncts(p_.test if in_body else ast.UnaryOp(op=ast.Not(), operand=p_.test)):
+                    k = quant_kind(c)
+                    if k is not None:
+                        ks.append(k)
+            if isinstance(p_, (ast.FunctionDef,)):
+                break
+        return ks
+    for r in rets:
+        a, b = r.value.elts
+        if isinstance(a, ast.Name):
+            start_vars.add(a.id)
+        elif const_val(a, 0) is not None:
+            und.append('first component %s' % short(a))
+        if isinstance(b, ast.Name):
+            lp_ = next((p_ for p_ in _parents(r) if isinstance(p_, ast.For) and b.id in names_in(p_.target)), None)
+            if lp_ is not None:
+                ks = guard_kinds(r)
+                if ks:
+                    direct['end'].append(ks[0])
+                else:
+                    und.append('return %s not under a presence test' % short(r.value))
             else:
-                seen_kinds[norm(n.targets[0])].append(ks[0])
+                end_vars.add(b.id)
+        elif const_val(b, 0) is not None:
+            und.append('second component %s' % short(b))
+    start_vars -= {'start', 'end'}        # the pre-checked start / the normalised range of the empty-settings arm
+    end_vars -= {'start', 'end'}
+    seen_kinds = {'start': list(direct['start']), 'end': list(direct['end'])}
+    for which, names in (('start', start_vars), ('end', end_vars)):
+        for n in f.walk():
+            if isinstance(n, ast.Assign) and len(n.targets) == 1 and isinstance(n.targets[0], ast.Name) and n.targets[0].id in names and \
+                    not (isinstance(n.value, ast.Constant) and n.value.value is None):
+                v = n.value
+                if isinstance(v, ast.Call) and call_name(v) == 'next' and v.args and isinstance(v.args[0], ast.GeneratorExp) and v.args[0].generators[0].ifs:
+                    ks = [quant_kind(c) for i_ in v.args[0].generators[0].ifs for c in conjuncts(i_)]
+                    ks = [k for k in ks if k is not None]
+                    if ks:
+                        seen_kinds[which].append(ks[0])
+                    else:
+                        und.append('selection %s' % short(v))
+                    continue
+                ks = guard_kinds(n)
+                if not ks:
+                    und.append('%s = %s not under a presence test' % (n.targets[0].id, short(v)))
+                else:
+                    seen_kinds[which].append(ks[0])
     if und:
         R.undecided(f, f.node, 'predicate shapes not recognised: %s' % und[:2], construct=cons)
     else:
-        if not seen_kinds['found_start'] or any(k != 'all' for k in seen_kinds['found_start']):
-            problems.append('found_start is set under %s; it needs every given setting present' % seen_kinds['found_start'])
-        if not seen_kinds['found_end'] or any(k != 'notall' for k in seen_kinds['found_end']):
-            problems.append('found_end is set under %s; it needs at least one given setting missing' % seen_kinds['found_end'])
-        R.check(not problems, f, f.node, 'found_start under "all present", found_end under "some missing", same by-value membership test',
+        if not seen_kinds['start'] or any(k != 'all' for k in seen_kinds['start']):
+            problems.append('the reported start is selected under %s; it needs every given setting present' % seen_kinds['start'])
+        if not seen_kinds['end'] or any(k != 'notall' for k in seen_kinds['end']):
+            problems.append('the reported end is selected under %s; it needs at least one given setting missing' % seen_kinds['end'])
+        R.check(not problems, f, f.node, 'start selected under "all present", end under "some missing", same by-value membership test',
                 '; '.join(problems), construct=cons)
 
 
